@@ -257,6 +257,12 @@ Proof. repeat split; vm_compute; reflexivity. Qed.
 (* the repaired defect: shards 1 and 2 defined, shard 1 and an UNDEFINED shard 9 fully reporting:
    the deadline is NOT cleared; the tick landing on the deadline (125) passes, the next one
    fail-stops, and afterwards every update and every query panics *)
+Definition is_qpanic (r : qres) : bool := match r with QPanic => true | _ => false end.
+Definition all_queries_panic (s : rstate) : bool :=
+  match s with
+  | Live d => forallb (λ q, is_qpanic (db_query P0 d q)) [QShards; QKV 2; QContext; QRequests 1; QStates [1]; QHash; QSnap]
+  | Dead => false
+  end.
 Definition stuck := defs ++ [CRequests lbatch; CReport (rep 1 1 11); CReport (rep 2 9 91)].
 Example ex_failstop :
   live_fields (run P0 stuck) = Some (5, 125, false, true) /\
@@ -264,13 +270,11 @@ Example ex_failstop :
   results_from P0 (run P0 (stuck ++ replicate 23 CTick)) [CTick; CTick; CTick; CReport (rep 2 2 21); CRequests []; CKV (mkKVR 9 1 0 0 0 false)]
     = [Some 125; None; None; None; None; None] /\
   live_fields (run P0 (stuck ++ replicate 25 CTick)) = Some (130, 125, true, true) /\
-  (exists d, run P0 (stuck ++ replicate 25 CTick) = Live d /\
-     db_query P0 d QShards = QPanic /\ db_query P0 d (QKV 2) = QPanic /\ db_query P0 d QContext = QPanic /\
-     db_query P0 d (QRequests 1) = QPanic /\ db_query P0 d (QStates [1]) = QPanic /\
-     db_query P0 d QHash = QPanic /\ db_query P0 d QSnap = QPanic).
+  all_queries_panic (run P0 (stuck ++ replicate 25 CTick)) = true /\
+  all_queries_panic (run P0 (stuck ++ replicate 24 CTick)) = false.
 Proof.
   split; [vm_compute; reflexivity|]. split; [vm_compute; reflexivity|]. split; [vm_compute; reflexivity|].
-  split; [vm_compute; reflexivity|]. eexists. split; [vm_compute; reflexivity|]. repeat split; reflexivity.
+  split; [vm_compute; reflexivity|]. split; vm_compute; reflexivity.
 Qed.
 
 (* the converse witness: both defined shards launched plus an undefined shard 9 in the view: cleared *)
@@ -287,16 +291,14 @@ Example ex_report_at_time_zero :
 Proof. split; vm_compute; reflexivity. Qed.
 
 (* each of the three snapshot-relevant fields is observable: dropping it on restore changes later answers *)
+Definition with_state (s : rstate) (f : db -> db) : rstate := match s with Live d => Live (f d) | Dead => Dead end.
+Definition at_deadline := run P0 (stuck ++ replicate 24 CTick).       (* tick = deadline = 125, not failed *)
+Definition past_deadline := run P0 (stuck ++ replicate 25 CTick).     (* fail-stopped *)
 Example ex_fields_matter :
-  exists d, run P0 (stuck ++ replicate 24 CTick) = Live d /\
-    results_from P0 (Live d) [CTick] = [None] /\
-    results_from P0 (Live (set_deadline d 0)) [CTick] = [Some 130] /\
-    results_from P0 (Live d) [CRequests lbatch] = [Some 0] /\
-    results_from P0 (Live (set_kv d ∅)) [CRequests lbatch] = [Some 2] /\
-    (exists d', run_from P0 (Live d) [CTick] = Live d' /\
-       results_from P0 (Live d') [CTick] = [None] /\ results_from P0 (Live (set_failed (set_deadline d' 0) false)) [CTick] = [Some 135]).
-Proof.
-  eexists. split; [vm_compute; reflexivity|]. split; [vm_compute; reflexivity|]. split; [vm_compute; reflexivity|].
-  split; [vm_compute; reflexivity|]. split; [vm_compute; reflexivity|].
-  eexists. split; [vm_compute; reflexivity|]. split; vm_compute; reflexivity.
-Qed.
+  results_from P0 at_deadline [CTick] = [None] /\
+  results_from P0 (with_state at_deadline (λ d, set_deadline d 0)) [CTick] = [Some 130] /\
+  results_from P0 at_deadline [CRequests lbatch] = [Some 0] /\
+  results_from P0 (with_state at_deadline (λ d, set_kv d ∅)) [CRequests lbatch] = [Some 2] /\
+  results_from P0 past_deadline [CKV (mkKVR 9 1 0 0 0 false)] = [None] /\
+  results_from P0 (with_state past_deadline (λ d, set_failed d false)) [CKV (mkKVR 9 1 0 0 0 false)] = [Some 0].
+Proof. repeat split; vm_compute; reflexivity. Qed.
